@@ -54,9 +54,9 @@ namespace foonathan
             /// It has the same type as the call to \ref allocator_reference::get_allocator().
             /// \requires The deallocator must not be created by the default constructor.
             auto get_allocator() const noexcept
-                -> decltype(std::declval<allocator_reference<allocator_type>>().get_allocator())
+                -> decltype(std::declval<allocator_reference<RawAllocator>>().get_allocator())
             {
-                return this->allocator_reference<allocator_type>::get_allocator();
+                return this->allocator_reference<RawAllocator>::get_allocator();
             }
         };
 
@@ -99,9 +99,9 @@ namespace foonathan
             /// It has the same type as the call to \ref allocator_reference::get_allocator().
             /// \requires The deallocator must not have been created by the default constructor.
             auto get_allocator() const noexcept
-                -> decltype(std::declval<allocator_reference<allocator_type>>().get_allocator())
+                -> decltype(std::declval<allocator_reference<RawAllocator>>().get_allocator())
             {
-                return this->allocator_reference<allocator_type>::get_allocator();
+                return this->allocator_reference<RawAllocator>::get_allocator();
             }
 
             /// \returns The size of the array that will be deallocated.
@@ -152,9 +152,9 @@ namespace foonathan
             /// \returns The reference to the allocator.
             /// It has the same type as the call to \ref allocator_reference::get_allocator().
             auto get_allocator() const noexcept
-                -> decltype(std::declval<allocator_reference<allocator_type>>().get_allocator())
+                -> decltype(std::declval<allocator_reference<RawAllocator>>().get_allocator())
             {
-                return this->allocator_reference<allocator_type>::get_allocator();
+                return this->allocator_reference<RawAllocator>::get_allocator();
             }
 
         private:
@@ -198,9 +198,9 @@ namespace foonathan
             /// \returns The reference to the allocator.
             /// It has the same type as the call to \ref allocator_reference::get_allocator().
             auto get_allocator() const noexcept
-                -> decltype(std::declval<allocator_reference<allocator_type>>().get_allocator())
+                -> decltype(std::declval<allocator_reference<RawAllocator>>().get_allocator())
             {
-                return this->allocator_reference<allocator_type>::get_allocator();
+                return this->allocator_reference<RawAllocator>::get_allocator();
             }
         };
 
@@ -244,9 +244,9 @@ namespace foonathan
             /// It has the same type as the call to \ref allocator_reference::get_allocator().
             /// \requires The deleter must not be created by the default constructor.
             auto get_allocator() const noexcept
-                -> decltype(std::declval<allocator_reference<allocator_type>>().get_allocator())
+                -> decltype(std::declval<allocator_reference<RawAllocator>>().get_allocator())
             {
-                return this->allocator_reference<allocator_type>::get_allocator();
+                return this->allocator_reference<RawAllocator>::get_allocator();
             }
 
             /// \returns The size of the array that will be deallocated.
@@ -300,9 +300,9 @@ namespace foonathan
             /// \returns The reference to the allocator.
             /// It has the same type as the call to \ref allocator_reference::get_allocator().
             auto get_allocator() const noexcept
-                -> decltype(std::declval<allocator_reference<allocator_type>>().get_allocator())
+                -> decltype(std::declval<allocator_reference<RawAllocator>>().get_allocator())
             {
-                return this->allocator_reference<allocator_type>::get_allocator();
+                return this->allocator_reference<RawAllocator>::get_allocator();
             }
 
         private:
